@@ -312,6 +312,8 @@ def add_cds_feature(
     location = transcript.cds.chunk_relative_location.to_biopython()
     feature = SeqFeature(location, type=GeneIntervalFeatures.CDS.value, strand=strand.value)
     feature.qualifiers = transcript_qualifiers
+    # /codon_start records the start frame of the CDS; without it the parser assumes frame zero
+    feature.qualifiers[KnownQualifiers.CODON_START.value] = [next(transcript.cds._frame_iter()).value + 1]
 
     if update_translations:
         # if the sequence has N's, we cannot translate
